@@ -194,6 +194,26 @@ func (s *multiSim) prove(st *multiStep) {
 			nmut++
 		}
 	}
+	// re-targeting: the same proof nodes offered for another key of the store. An absence proof
+	// must never verify for a key that is present at that version; an existence proof must never
+	// verify for another present key (with that key's own value).
+	if rp != nil {
+		for _, kv := range sortedPairs(be.stores[st.S]) {
+			if bytes.Equal(kv.k, key) {
+				continue
+			}
+			p := cloneProof(res.Proof)
+			kp2 := keyPath(name, kv.k)
+			if present {
+				p.Ops[0] = iavl.NewValueOp(kv.k, rp).ProofOp()
+				bad("retarget-to-other-present-key", prt.VerifyValue(p, root, kp2, kv.v))
+			} else {
+				p.Ops[0] = iavl.NewAbsenceOp(kv.k, rp).ProofOp()
+				bad("retarget-to-present-key", prt.VerifyAbsence(p, root, kp2))
+			}
+			nmut++
+		}
+	}
 	// op 1: the multistore op — store names and hashes (the version of a store-info is not part
 	// of the hash by design and is not altered)
 	if len(res.Proof.Ops) > 1 {
